@@ -23,6 +23,7 @@ ASSUMPTIONS = [
     'the metamorphic transformation changes only leading whitespace of a line and appends trailing spaces/tabs',
 ]
 EXHAUSTIVE = {'quick': False, 'thorough': False}
+PYOPT_KINDS = (None,)
 KNOWN_KEYS = {'blank-line-in-block', 'slashslash-own-line', 'eof-trailing-space-newline', 'table-trailing-separator-dedent'}
 OPEN_KW = (b'then', b'do', b'repeat')
 OPEN_SYM = (b'(', b'{', b'[')
